@@ -34,7 +34,8 @@ use naijascript::arena::Arena;
 use naijascript::process::{HostPolicy, ProcessCaps};
 use naijascript::resolver::Resolver;
 use naijascript::runtime::Runtime;
-use naijascript::syntax::parser::Parser;
+use naijascript::analysis::facts::ProgramFacts;
+use naijascript::syntax::parser::{BlockRef, Parser, Stmt};
 use naijascript::syntax::scanner::Lexer;
 
 use crate::astio::{self, Opts};
@@ -627,6 +628,9 @@ fn answer(line: &str, lineno: usize) -> String {
             if noplan != main {
                 eprintln!("ORACLE-FAIL {lineno} [C03] plan vs no plan: {main} vs {noplan}");
             }
+            if let Some(what) = scope_tag_oracle(&text) {
+                eprintln!("ORACLE-FAIL {lineno} [C04] scope tags: {what}");
+            }
             if let Some(exp) = w.iter().find_map(|x| x.strip_prefix("exp=")) {
                 let want = format!("out={exp} end=ok");
                 if main != want {
@@ -674,6 +678,96 @@ fn answer(line: &str, lineno: usize) -> String {
         },
         _ => "bad-request".into(),
     }
+}
+
+/// Implementation-level oracle behind the evaluator model's scope tags (`Scope.decls` in
+/// `Model/Eval.lean`): the runtime tags a scope instance with a `ScopeId` and compares it with
+/// `facts.locals[l].declaring_scope`; the model tags it with the locals its OWN `make` statements (for a
+/// block) or its parameters (for a call) are bound to. The two coincide iff, for every block `B` of an
+/// accepted program, the locals whose declaring scope is `scope_of_block(B)` are exactly the bindings of
+/// the `make` statements directly in `B`, and the locals whose declaring scope is that of a function's
+/// first parameter are exactly its parameters. Checked here on the real resolver's facts.
+fn scope_tag_oracle(src: &str) -> Option<String> {
+    fn sorted(mut v: Vec<u32>) -> Vec<u32> {
+        v.sort_unstable();
+        v.dedup();
+        v
+    }
+    fn block<'a>(facts: &ProgramFacts<'a, 'a>, b: BlockRef<'a>, bad: &mut Option<String>) {
+        let Some(scope) = facts.scope_of_block(b) else {
+            bad.get_or_insert(format!("block {}..{} has no scope", b.span.start, b.span.end));
+            return;
+        };
+        let mut makes = Vec::new();
+        for stmt in b.stmts {
+            match stmt {
+                Stmt::Assign { .. } => match facts.stmt_local(stmt) {
+                    Some(l) => makes.push(l.0),
+                    None => {
+                        bad.get_or_insert(format!("unbound make in block {}..{}", b.span.start, b.span.end));
+                    }
+                },
+                Stmt::If { then_b, else_b, .. } => {
+                    block(facts, then_b, bad);
+                    if let Some(eb) = else_b {
+                        block(facts, eb, bad);
+                    }
+                }
+                Stmt::Loop { body, .. } => block(facts, body, bad),
+                Stmt::Block { block: inner, .. } => block(facts, inner, bad),
+                Stmt::FunctionDef { params, body, .. } => {
+                    match facts.function_by_body(body) {
+                        Some(f) => {
+                            let n = params.params.len() as u32;
+                            let start = facts.local_range(f).start;
+                            let ids: Vec<u32> = (start..start + n).collect();
+                            if n > 0 {
+                                let p = facts.locals[start as usize].declaring_scope;
+                                let declared = sorted(facts.scope_locals(p).iter().map(|l| l.0).collect());
+                                if declared != ids {
+                                    bad.get_or_insert(format!(
+                                        "parameter scope {} of function {} declares {declared:?}, parameters are {ids:?}",
+                                        p.0, f.0
+                                    ));
+                                }
+                            }
+                        }
+                        None => {
+                            bad.get_or_insert(format!("function body {}..{} is unbound", body.span.start, body.span.end));
+                        }
+                    }
+                    block(facts, body, bad);
+                }
+                _ => {}
+            }
+        }
+        let declared = sorted(facts.scope_locals(scope).iter().map(|l| l.0).collect());
+        let makes = sorted(makes);
+        if declared != makes {
+            bad.get_or_insert(format!(
+                "scope {} of block {}..{} declares {declared:?}, its make statements bind {makes:?}",
+                scope.0, b.span.start, b.span.end
+            ));
+        }
+    }
+    util::catch(|| {
+        let arena = Arena::new(pipeline::ARENA_CAP).unwrap();
+        let lexer = Lexer::new(src, &arena);
+        let mut parser = Parser::new(lexer, &arena);
+        let (root, errs) = parser.parse_program();
+        if !errs.diagnostics.is_empty() {
+            return None;
+        }
+        let mut resolver = Resolver::new(&arena);
+        resolver.resolve(root);
+        if resolver.errors.has_errors() {
+            return None;
+        }
+        let mut bad = None;
+        block(&resolver.facts, root, &mut bad);
+        bad
+    })
+    .unwrap_or_else(|_| Some("oracle panicked".to_string()))
 }
 
 fn kind_name(message: &str) -> &'static str {
